@@ -47,10 +47,12 @@ func extractInterop(p *pkgs, f *facts) {
 	}
 	autoAtStart, autoJS := autoTLSAtStart(p)
 	dialsTLS, dialJS := hostDialsUseTLSConfig(p)
-	f.lean = append(f.lean, fmt.Sprintf("def interop : Interop.Params := ⟨%s, %s, %s, %s⟩", leanBool(dflt), leanBool(refused),
-		leanBool(autoAtStart), leanBool(dialsTLS)))
+	checkDflt, checkJS := allowedCheckCoversDefault(p)
+	f.lean = append(f.lean, fmt.Sprintf("def interop : Interop.Params := ⟨%s, %s, %s, %s, %s⟩", leanBool(dflt), leanBool(refused),
+		leanBool(autoAtStart), leanBool(dialsTLS), leanBool(checkDflt)))
 	f.set("interop", map[string]interface{}{"defaultAllowedNetrpcOnly": dflt, "reattachMuxRefused": refused,
-		"autoTlsAtStart": autoAtStart, "autoTlsAtStartWhy": autoJS, "dialsUseTlsConfig": dialsTLS, "dialsUseTlsConfigWhy": dialJS})
+		"autoTlsAtStart": autoAtStart, "autoTlsAtStartWhy": autoJS, "dialsUseTlsConfig": dialsTLS, "dialsUseTlsConfigWhy": dialJS,
+		"allowedCheckCoversDefault": checkDflt, "allowedCheckCoversDefaultWhy": checkJS})
 }
 
 // autoTLSAtStart: `Client.Start` installs the AutoMTLS configuration itself, before the
@@ -171,4 +173,132 @@ func hostDialsUseTLSConfig(p *pkgs) (bool, map[string]interface{}) {
 		ok = ok && wrap[k]
 	}
 	return ok, out
+}
+
+
+// allowedCheckCoversDefault: in Client.Start the comparison of <recv>.protocol with
+// AllowedProtocols also covers the protocol DEFAULTED for a four-field line.
+//
+// Accepted shape (anything else = false): the statement list L that contains, as a direct
+// child, the single assignment `<recv>.protocol = ProtocolNetRPC` also contains, as a LATER
+// direct child (hence not inside the `if len(parts) >= 5 { … }` that reads the field), a
+// refusal `if C { … return <non-nil err> }` where either
+//
+//	(a) C mentions both AllowedProtocols and <recv>.protocol, negated
+//	    (`!slices.Contains(c.config.AllowedProtocols, c.protocol)`), or
+//	(b) C is `!X`, X is declared `X := false` as a direct child of L after the default, and a
+//	    `for … range <recv>.config.AllowedProtocols` that is a direct child of L between the
+//	    default and the refusal sets `X = true` under a comparison with <recv>.protocol;
+//
+// and every other assignment to <recv>.protocol in Start precedes the refusal.
+func allowedCheckCoversDefault(p *pkgs) (bool, map[string]interface{}) {
+	js := map[string]interface{}{}
+	st := p.fn("Client", "Start")
+	if st == nil || recvName(st) == "" {
+		js["reason"] = "Client.Start not found"
+		return false, js
+	}
+	r := recvName(st)
+	proto := r + ".protocol"
+	var lists [][]ast.Stmt
+	ast.Inspect(st.Body, func(n ast.Node) bool {
+		switch b := n.(type) {
+		case *ast.BlockStmt:
+			lists = append(lists, b.List)
+		case *ast.CaseClause:
+			lists = append(lists, b.Body)
+		case *ast.CommClause:
+			lists = append(lists, b.Body)
+		}
+		return true
+	})
+	isDefault := func(s ast.Stmt) bool {
+		as, ok := s.(*ast.AssignStmt)
+		return ok && as.Tok == token.ASSIGN && len(as.Lhs) == 1 && len(as.Rhs) == 1 && exprString(as.Lhs[0]) == proto && exprString(as.Rhs[0]) == "ProtocolNetRPC"
+	}
+	var L []ast.Stmt
+	di, nDefaults := -1, 0
+	for _, l := range lists {
+		for i, s := range l {
+			if isDefault(s) {
+				nDefaults++
+				L, di = l, i
+			}
+		}
+	}
+	js["defaults"] = nDefaults
+	if nDefaults != 1 {
+		js["reason"] = "no single `" + proto + " = ProtocolNetRPC`"
+		return false, js
+	}
+	refusal := -1
+	for j := di + 1; j < len(L) && refusal < 0; j++ {
+		is, ok := L[j].(*ast.IfStmt)
+		if !ok || is.Init != nil || !blockReturnsNonNilErr(is.Body) {
+			continue
+		}
+		ue, ok := is.Cond.(*ast.UnaryExpr)
+		if !ok || ue.Op != token.NOT {
+			continue
+		}
+		c := exprString(ue.X)
+		if strings.Contains(c, "AllowedProtocols") && strings.Contains(c, proto) {
+			refusal = j
+			js["shape"] = "direct: " + c
+			break
+		}
+		x, ok := ue.X.(*ast.Ident)
+		if !ok {
+			continue
+		}
+		declared, set := false, false
+		for k := di + 1; k < j; k++ {
+			switch y := L[k].(type) {
+			case *ast.AssignStmt:
+				if y.Tok == token.DEFINE && len(y.Lhs) == 1 && len(y.Rhs) == 1 && exprString(y.Lhs[0]) == x.Name && exprString(y.Rhs[0]) == "false" {
+					declared = true
+				}
+			case *ast.RangeStmt:
+				if !strings.HasSuffix(exprString(y.X), ".config.AllowedProtocols") || !declared {
+					continue
+				}
+				ast.Inspect(y.Body, func(m ast.Node) bool {
+					ii, ok := m.(*ast.IfStmt)
+					if !ok || !strings.Contains(exprString(ii.Cond), proto) || !strings.Contains(exprString(ii.Cond), "==") {
+						return true
+					}
+					if assignsTrue(ii.Body, x.Name) {
+						set = true
+					}
+					return true
+				})
+			}
+		}
+		if declared && set {
+			refusal = j
+			js["shape"] = "loop setting " + x.Name
+		}
+	}
+	if refusal < 0 {
+		js["reason"] = "no refusal on AllowedProtocols in the statement list of the net/rpc default (after it)"
+		return false, js
+	}
+	// no assignment to c.protocol after the refusal
+	late := 0
+	ast.Inspect(st.Body, func(m ast.Node) bool {
+		if as, ok := m.(*ast.AssignStmt); ok {
+			for _, lh := range as.Lhs {
+				if exprString(lh) == proto && as.Pos() > L[refusal].Pos() {
+					late++
+				}
+			}
+		}
+		return true
+	})
+	js["protocolAssignedAfterCheck"] = late
+	if late != 0 {
+		js["reason"] = proto + " is assigned after the check"
+		return false, js
+	}
+	return true, js
 }
